@@ -550,6 +550,9 @@ func c04Cells(thorough bool) []c04Cell {
 }
 
 func c04Run(c *fw.Ctx) {
+	{
+		interfRun(c, "C04") // statement-level interleavings of operations on shared / disjoint objects (subprocess)
+	}
 	cells := c04Cells(c.Thorough())
 	for i, cell := range cells {
 		if !c.Mine(i) {
